@@ -68,7 +68,8 @@ MANIFEST = {
             "  Second session: contract on the real complete_url: the caller's context (strings or ru.Url objects, as Pilot.stage_in uses) is unchanged by a call and the same question gets the same answer twice."
             "  Third session: pilot level - Pilot.stage_in / Pilot.stage_out (default and explicit directives, dict and list forms) of 1-3 pilots of one manager through the manager's real stager; the data must be at the place the call returns, with the content of THAT pilot."
             '  Several tasks may copy the same reference file to the same place in the pilot sandbox; a later failure of one of them leaves what the others staged.'
-            '  Directory life cycles: 2-4 generations of tasks collect their outputs (COPY) in one directory of the pilot / session / resource sandbox through one agent output stager; between generations the directory is moved away as a whole (MOVE directive or renamed by a task): every directive succeeds, every file is where the directives put it.',
+            '  Directory life cycles: 2-4 generations of tasks collect their outputs (COPY) in one directory of the pilot / session / resource sandbox through one agent output stager; between generations the directory is moved away as a whole (MOVE directive or renamed by a task): every directive succeeds, every file is where the directives put it.'
+            '  File sizes: most sources hold a line of text, three in eight fill several I/O buffers (7000, 15000, 70000 bytes).',
     'note': 'only the local staging backend exists offline (no SAGA); the '
             'driver replaces the proxy bridge and the executor; sampled, not '
             'enumerated.'}
@@ -547,8 +548,13 @@ def gen_directive(rng, stage, tag, action=None):
     if kind == 'dir' and form.startswith('dict'):
         form = 'dict+flags'
 
+    # file sizes: mostly a line of text; some fill several I/O buffers
+    import zlib
+    pad = [0, 0, 0, 0, 0, 7000, 15000, 70000][
+              zlib.crc32(('%s/%s/%s' % (tag, src['rel'], form)).encode()) % 8]
     return {'action': action, 'form': form, 'src': src, 'tgt': tgt,
-            'kind': kind, 'fault': fault, 'tag': tag, 'chain': None}
+            'kind': kind, 'fault': fault, 'tag': tag, 'chain': None,
+            'pad': pad}
 
 
 def gen_chain(rng, stage, tag):
@@ -673,7 +679,7 @@ def gen_case(rng, idx):
 #
 def content_of(d):
     # the second step of a chain carries the data of the first one
-    return 'content of %s\n' % d.get('ctag', d['tag'])
+    return 'content of %s\n' % d.get('ctag', d['tag']) + 'x' * d.get('pad', 0)
 
 
 def make_source(path, d):
